@@ -106,6 +106,8 @@ def shrink(workdir, spec, kind_class):
 
 def check(run):
     pr = run.proof_stage()
+    if not run.quick() and pr['build_ok']:
+        run.coqchk_stage()
     ok, out = vlib.build_harness(['c20'])
     if not ok:
         run.violation(dict(kind='harness-build-failed', log=out[-3000:],
